@@ -65,6 +65,16 @@ func failingOp(c c13Case) (obs, bad string) {
 		case "ParseOTPAuthURL-badalgo":
 			u, _ := url.Parse("otpauth://totp/I:a?secret=" + url.QueryEscape(c.Secret) + "&algorithm=MD5")
 			_, err = otp.ParseOTPAuthURL(u)
+		case "ParseOTPAuthURL-repeated-secret":
+			u, _ := url.Parse("otpauth://totp/I:a?secret=" + url.QueryEscape(c.Secret) + "&secret=" + url.QueryEscape(c.Secret))
+			_, err = otp.ParseOTPAuthURL(u)
+		case "ParseOTPAuthURL-two-secrets":
+			u, _ := url.Parse("otpauth://hotp/I:a?secret=" + url.QueryEscape(c.Secret) + "&digits=6&secret=JBSWY3DPEHPK3PXP&counter=1")
+			_, err = otp.ParseOTPAuthURL(u)
+		case "ParseOTPAuthURL-repeated-everything":
+			q := "secret=" + url.QueryEscape(c.Secret)
+			u, _ := url.Parse("otpauth://totp/I:a?" + q + "&digits=6&digits=8&algorithm=SHA1&algorithm=SHA256&period=30&period=60&issuer=I&issuer=J&" + q + "&x=" + url.QueryEscape(c.Secret))
+			_, err = otp.ParseOTPAuthURL(u)
 		case "ParseOTPAuthURL-badperiod":
 			u, _ := url.Parse("otpauth://totp/I:a?secret=" + url.QueryEscape(c.Secret) + "&period=-5")
 			_, err = otp.ParseOTPAuthURL(u)
@@ -278,7 +288,7 @@ func c13(r *ev.Run) {
 	if ReplayOnly {
 		return
 	}
-	ops := []string{"DecodeSecret", "GenerateHOTP", "GenerateTOTP", "GenerateOCRA", "GenerateHOTP-baddigits", "GenerateHOTP-badalgo", "GenerateTOTP-badalgo", "GenerateOCRA-badinput", "GenerateOCRA-badsuite", "GenerateTOTPURL-noissuer", "GenerateHOTPURL-noaccount", "ParseOTPAuthURL-baddigits", "ParseOTPAuthURL-badalgo", "ParseOTPAuthURL-badperiod", "ParseOTPAuthURL-badtype", "ParseOTPAuthURL-nolabelcolon", "ParseOTPAuthURL-emptylabel", "ParseOTPAuthURL-nopath", "ParseOTPAuthURL-badscheme", "ParseOTPAuthURL-secret-in-label", "ParseOTPAuthURL-hugedigits", "HexInputToOCRA-bad", "NewSuite-bad", "ValidateOCRA-badinput", "ValidateTOTP-badskew", "ValidateHOTP-wronglen"}
+	ops := []string{"DecodeSecret", "GenerateHOTP", "GenerateTOTP", "GenerateOCRA", "GenerateHOTP-baddigits", "GenerateHOTP-badalgo", "GenerateTOTP-badalgo", "GenerateOCRA-badinput", "GenerateOCRA-badsuite", "GenerateTOTPURL-noissuer", "GenerateHOTPURL-noaccount", "ParseOTPAuthURL-baddigits", "ParseOTPAuthURL-badalgo", "ParseOTPAuthURL-badperiod", "ParseOTPAuthURL-repeated-secret", "ParseOTPAuthURL-two-secrets", "ParseOTPAuthURL-repeated-everything", "ParseOTPAuthURL-badtype", "ParseOTPAuthURL-nolabelcolon", "ParseOTPAuthURL-emptylabel", "ParseOTPAuthURL-nopath", "ParseOTPAuthURL-badscheme", "ParseOTPAuthURL-secret-in-label", "ParseOTPAuthURL-hugedigits", "HexInputToOCRA-bad", "NewSuite-bad", "ValidateOCRA-badinput", "ValidateTOTP-badskew", "ValidateHOTP-wronglen"}
 	var secs []string
 	for _, n := range []int{5, 10, 20, 32, 64} {
 		key := filler(r.Seed, "c13", n)
